@@ -157,3 +157,7 @@ pub proof fn lemma_pair_feed_symmetric(a: Term, b: Term)
 {
     lemma_wadd_comm_assoc(digest(a), digest(b), 0);
 }
+
+/// A2: a hash set's capacity is at least its length (and otherwise unrelated to its contents)
+pub assume_specification<T, S, A: std::alloc::Allocator>[ HashSet::<T, S, A>::capacity ](s: &HashSet<T, S, A>) -> (r: usize)
+    ensures r >= s@.len();
